@@ -1,6 +1,6 @@
 /-
   C02 helpers: under draft-07 the keywords of later drafts (`minContains`, `maxContains`, `unevaluatedItems`,
-  `unevaluatedProperties`) are read neither by the Spec nor by the evaluator.
+  `unevaluatedProperties`, `$dynamicRef`) are read neither by the Spec nor by the evaluator.
 -/
 import JSV.Proofs.InvDraft
 import JSV.Proofs.InvPerm5
@@ -8,22 +8,24 @@ namespace JSV
 namespace Inv
 open Go GoVal Refine
 
-/-- clear the four keywords that later drafts added to draft-07 -/
+/-- clear the keywords that later drafts added to draft-07 -/
 def eraseLater (n : Node) : Node :=
-  { n with minContains := none, maxContains := none, unevaluatedItems := none, unevaluatedProperties := none }
+  { n with dynamicRef := "", minContains := none, maxContains := none, unevaluatedItems := none,
+           unevaluatedProperties := none }
 
 /-- … which is what the draft-07 vocabulary of the Spec does -/
 theorem eraseLater_eq_vocab (n : Node) : eraseLater n = Spec.vocab .d7 n := rfl
 
-/-- … and the four field-wise erasures of C18 composed -/
+/-- … and the five field-wise erasures of C18 composed -/
 theorem eraseLater_eq_eraseField (n : Node) :
-    eraseLater n = eraseField "MinContains" (eraseField "MaxContains"
-      (eraseField "UnevaluatedItems" (eraseField "UnevaluatedProperties" n))) := by
+    eraseLater n = eraseField "DynamicRef" (eraseField "MinContains" (eraseField "MaxContains"
+      (eraseField "UnevaluatedItems" (eraseField "UnevaluatedProperties" n)))) := by
+  have h0 : ∀ m : Node, eraseField "DynamicRef" m = { m with dynamicRef := "" } := fun _ => rfl
   have h1 : ∀ m : Node, eraseField "UnevaluatedProperties" m = { m with unevaluatedProperties := none } := fun _ => rfl
   have h2 : ∀ m : Node, eraseField "UnevaluatedItems" m = { m with unevaluatedItems := none } := fun _ => rfl
   have h3 : ∀ m : Node, eraseField "MaxContains" m = { m with maxContains := none } := fun _ => rfl
   have h4 : ∀ m : Node, eraseField "MinContains" m = { m with minContains := none } := fun _ => rfl
-  rw [h1, h2, h3, h4]
+  rw [h1, h2, h3, h4, h0]
   rfl
 
 theorem vocab_eraseLater (d : Draft) (n : Node) (hd : d = .d7) : Spec.vocab d (eraseLater n) = Spec.vocab d n := by
@@ -41,8 +43,11 @@ theorem stepBody_later7 (env : VEnv) (hd : env.draft = .d7) (rec : Go.Rec) (stac
   have hO := fun stk => bObject_of_bDependencies env rec stk eraseLater n (fun _ _ _ => rfl)
     (fun _ _ => rfl) rfl (fun _ _ => rfl)
     (fun kvs anns => by rw [bUnevaluatedProps_vocab, bUnevaluatedProps_vocab _ _ _ n, vocab_eraseLater _ _ hd])
+  have hD : ∀ stk inf inst anns, bDynamicRef env rec stk (eraseLater n) inf inst anns
+      = bDynamicRef env rec stk n inf inst anns := fun stk inf inst anns => by
+    rw [bDynamicRef_d7 env hd, bDynamicRef_d7 env hd]
   unfold stepBody
-  simp only [hA, hO]
+  simp only [hA, hO, hD]
   rfl
 
 /-- a draft-07 evaluation never reads minContains, maxContains, unevaluatedItems, unevaluatedProperties -/
